@@ -77,6 +77,7 @@ type c01StepInfo struct {
 	responders map[ch.NodeID]bool
 	obs        map[ch.NodeID]*c01ProbeObs
 	pre        map[ch.NodeID]c01Snap
+	noop       bool
 }
 
 type c01Director struct {
@@ -117,6 +118,12 @@ type c01Director struct {
 	committedReplicas map[ch.NodeID]bool
 	stopped           bool
 	inconclusive      bool
+	// priorLoss is the first acknowledged-entry loss the C01 oracle saw in this
+	// case. A C02 breach observed after it is reported under a signature that
+	// names the dependency, because the lost entry's offsets get reused.
+	priorLoss   map[string]any
+	priorSuffix string
+	reported    map[string]bool
 }
 
 func c01NewDirector(r *verifkit.Run, rep *c01Reporter, mode int, c *c01Cluster, p c01Params, rng *rand.Rand, caseIdx int) *c01Director {
@@ -236,11 +243,34 @@ func (d *c01Director) witness(extra map[string]any) map[string]any {
 }
 
 func (d *c01Director) violation(prop int, sig string, extra map[string]any) {
+	if prop == c01ModeC01 && d.priorLoss == nil && sig == c01KnownLossSig {
+		d.priorLoss = map[string]any{"sig": sig, "at_step": d.stepNo}
+		d.priorSuffix = ":after-acked-entry-loss"
+		for _, k := range []string{"lost_entries", "install_node", "install_authority", "holders_among_reachable", "voters_whose_probe_answers_reached_installer"} {
+			if v, ok := extra[k]; ok {
+				d.priorLoss[k] = v
+			}
+		}
+	}
 	if prop != d.mode {
 		// observed by the sibling property's oracle; that property has its own
 		// run of the same schedules and reports it there.
 		d.r.Count("sibling_property_events."+sig, 1)
 		return
+	}
+	if d.reported == nil {
+		d.reported = map[string]bool{}
+	}
+	if d.reported[sig] {
+		return // the same breach re-observed at a later step of the same case
+	}
+	d.reported[sig] = true
+	if prop == c01ModeC02 && d.priorLoss != nil {
+		sig += d.priorSuffix
+		if extra == nil {
+			extra = map[string]any{}
+		}
+		extra["earlier_install_that_discarded_a_quorum_held_entry"] = d.priorLoss
 	}
 	d.rep.violation(d.r, sig, d.witness(extra))
 	d.fp = append(d.fp, "V:"+sig)
@@ -276,8 +306,13 @@ func (d *c01Director) checkC02(info c01StepInfo, post map[ch.NodeID]c01Snap) {
 				// the probed predecessor chain before returning a frontier; a
 				// persistent rejection of a quiescent replica's own state is a
 				// broken replica log. Locate the break with single-index reads.
-				d.violation(c01ModeC02, "replica-state-rejected-by-own-store", map[string]any{"node": id, "err": s.Err, "step": info.kind,
-					"single_index_reads": d.slowRead(id)})
+				reads, brokenAt := d.slowRead(id)
+				sig := "replica-state-rejected-by-own-store"
+				if brokenAt > 0 {
+					sig = "replica-predecessor-chain-broken"
+				}
+				d.violation(c01ModeC02, sig, map[string]any{"node": id, "err": s.Err, "step": info.kind, "offset": brokenAt,
+					"single_index_reads": reads})
 			} else {
 				d.r.Count("observe.load_error", 1)
 			}
@@ -336,18 +371,24 @@ func (d *c01Director) checkC02(info c01StepInfo, post map[ch.NodeID]c01Snap) {
 	}
 }
 
-func (d *c01Director) slowRead(id ch.NodeID) []string {
+// slowRead reads one identity per Load (which passes the adapter's own chain
+// validation trivially) and reports the first offset whose predecessor fields
+// do not match the entry before it.
+func (d *c01Director) slowRead(id ch.NodeID) ([]string, uint64) {
 	var out []string
+	var brokenAt uint64
+	var prev ch.EntryIdentity
 	nd := d.c.nodes[id]
-	for o := uint64(1); o <= 64; o++ {
+	for o := uint64(1); o <= c01Window; o++ {
 		ctx, cancel := context.WithTimeout(context.Background(), 10*time.Second)
 		res, err := nd.raw.Load(ctx, replication.LoadBatch{Items: []replication.LoadRequest{{ChannelKey: d.c.key, ChannelID: d.c.cid, ProbeIndexes: []uint64{o}}}})
 		cancel()
 		if err != nil || len(res.Items) != 1 || res.Items[0].Err != nil {
-			out = append(out, fmt.Sprintf("%d: err=%v", o, err))
+			line := fmt.Sprintf("%d: err=%v", o, err)
 			if len(res.Items) == 1 {
-				out[len(out)-1] += fmt.Sprint(" ", res.Items[0].Err)
+				line += fmt.Sprint(" ", res.Items[0].Err)
 			}
+			out = append(out, line)
 			break
 		}
 		e := res.Items[0].Entries[0]
@@ -355,10 +396,25 @@ func (d *c01Director) slowRead(id ch.NodeID) []string {
 			out = append(out, fmt.Sprintf("%d: absent (leo=%d committed=%d)", o, res.Items[0].State.LEO, res.Items[0].State.Committed))
 			break
 		}
-		out = append(out, fmt.Sprintf("%d: term=%d prev=(%d,t%d,%s) digest=%s", o, e.Identity.LeaderTerm, e.Identity.PreviousIndex, e.Identity.PreviousTerm,
-			verifkit.Hex8(e.Identity.PreviousDigest[:4]), verifkit.Hex8(e.Identity.Digest[:4])))
+		x := e.Identity
+		out = append(out, fmt.Sprintf("%d: authority=%d.%d.%d prev=(%d,t%d,%s) digest=%s", o, x.ChannelEpoch, x.LeaderTerm, x.FenceVersion, x.PreviousIndex, x.PreviousTerm,
+			verifkit.Hex8(x.PreviousDigest[:4]), verifkit.Hex8(x.Digest[:4])))
+		bad := x.Index != o || x.PreviousIndex != o-1
+		if o == 1 {
+			bad = bad || x.PreviousTerm != 0 || x.PreviousDigest != (ch.EntryDigest{})
+		} else {
+			bad = bad || x.PreviousTerm != prev.LeaderTerm || x.PreviousDigest != prev.Digest
+		}
+		if bad && brokenAt == 0 {
+			brokenAt = o
+			out[len(out)-1] += "   <-- does not chain to the entry before it"
+		}
+		prev = x
 	}
-	return out
+	if len(out) > 40 {
+		out = append([]string{fmt.Sprintf("..(%d earlier)", len(out)-40)}, out[len(out)-40:]...)
+	}
+	return out, brokenAt
 }
 
 // ---------------------------------------------------------------------------
@@ -375,12 +431,61 @@ func (d *c01Director) ackedBrief(a *c01Acked) map[string]any {
 		"receipt": fmt.Sprintf("%+v", struct{ First, Last, HW uint64 }{a.Receipt.First, a.Receipt.Last, a.Receipt.HW})}
 }
 
+// noteCommittedDiscard records an Install that removed, from the installing
+// node, an entry some replica had already persisted as committed (it need not
+// have been acknowledged to a client), while fewer than Q but at least one of
+// the voters that answered the installer held it. That is the precondition of
+// the known C01 finding; a later committed-offset disagreement in the same case
+// is reported under a signature that names it.
+func (d *c01Director) noteCommittedDiscard(info c01StepInfo, post map[ch.NodeID]c01Snap) {
+	x := info.node
+	if info.kind != "install" || !post[x].OK || d.priorLoss != nil {
+		return
+	}
+	offs := make([]uint64, 0, len(d.committedID))
+	for o := range d.committedID {
+		offs = append(offs, o)
+	}
+	sort.Slice(offs, func(i, j int) bool { return offs[i] < offs[j] })
+	for _, o := range offs {
+		g := d.committedID[o]
+		had, okPre := info.pre[x].at(o)
+		now, okNow := post[x].at(o)
+		hasNow := okNow && now == g
+		hadBefore := okPre && had == g
+		if !((info.installOK && !info.noop && !hasNow) || (hadBefore && !hasNow)) {
+			continue
+		}
+		var holders []ch.NodeID
+		for _, v := range d.c.ids {
+			if id, ok := info.pre[v].at(o); ok && id == g && info.responders[v] {
+				holders = append(holders, v)
+			}
+		}
+		if len(holders) >= 1 && len(holders) < d.p.Q {
+			d.r.Count("c02.install_discarded_replica_committed_entry_held_below_quorum_of_reachable", 1)
+			d.priorLoss = map[string]any{"at_step": d.stepNo, "install_node": x, "offset": o, "committed_first_seen_on": d.committedBy[o],
+				"identity": fmt.Sprintf("%d.%d.%d/%s", g.ChannelEpoch, g.LeaderTerm, g.FenceVersion, verifkit.Hex8(g.Digest[:])),
+				"holders_among_reachable": holders, "voters_whose_probe_answers_reached_installer": c01SortedNodes(info.responders),
+				"install_succeeded": info.installOK, "replicas_before_install": d.briefAll(info.pre), "replicas_after_install": d.briefAll(post)}
+			d.priorSuffix = ":after-install-discarded-committed-entry"
+		}
+		return
+	}
+}
+
 func (d *c01Director) checkC01(info c01StepInfo, post map[ch.NodeID]c01Snap) {
+	defer d.noteCommittedDiscard(info, post)
 	if len(d.ackedOrder) == 0 {
 		return
 	}
 	x := info.node
 	isInstall := info.kind == "install"
+	// A repeated Install of the authority the node already holds returns the
+	// cached frontier without recovery: it is the same leadership continuing,
+	// not a later leader, so entries acknowledged meanwhile by a deposed leader
+	// are judged at the next real Install.
+	judgeLeader := info.installOK && !info.noop
 	var lost []*c01Acked
 	changed := false
 	for _, o := range d.ackedOrder {
@@ -415,9 +520,9 @@ func (d *c01Director) checkC01(info c01StepInfo, post map[ch.NodeID]c01Snap) {
 		}
 		hasNow := d.snapHas(post[x], a)
 		hadBefore := d.held[o][x] || d.snapHas(info.pre[x], a)
-		if (info.installOK && !hasNow) || (hadBefore && !hasNow) {
+		if (judgeLeader && !hasNow) || (hadBefore && !hasNow) {
 			lost = append(lost, a)
-			if _, present := post[x].at(o); present && info.installOK {
+			if _, present := post[x].at(o); present && judgeLeader {
 				changed = true
 			}
 		}
@@ -452,6 +557,14 @@ func (d *c01Director) checkC01(info c01StepInfo, post map[ch.NodeID]c01Snap) {
 	for _, a := range lost {
 		lostBrief = append(lostBrief, d.ackedBrief(a))
 	}
+	if info.installOK {
+		d.r.Count("c01.loss_events.install_succeeded", 1)
+	} else {
+		d.r.Count("c01.loss_events.install_failed_after_truncating", 1)
+		if sig != c01KnownLossSig {
+			sig += ":install-failed"
+		}
+	}
 	d.r.Count("c01.loss_events."+sig, 1)
 	d.violation(c01ModeC01, sig, map[string]any{
 		"lost_entries":                                lostBrief,
@@ -459,6 +572,7 @@ func (d *c01Director) checkC01(info c01StepInfo, post map[ch.NodeID]c01Snap) {
 		"install_authority":                           fmt.Sprintf("%d.%d.%d", info.authority.ChannelEpoch, info.authority.LeaderTerm, info.authority.FenceVersion),
 		"install_result":                              fmt.Sprintf("%+v", info.installed),
 		"install_err":                                 info.installErr,
+		"install_succeeded":                           info.installOK,
 		"write_quorum":                                d.p.Q,
 		"voters":                                      d.p.N,
 		"link_reachable_from_installer":               info.linkReach,
@@ -716,9 +830,12 @@ func (d *c01Director) doInstall(x ch.NodeID, id replication.AuthorityID) bool {
 		d.auth = id
 		d.leader = 0 // the previous holder is deposed from the control plane's point of view
 	}
+	prevReady, wasReady := d.ready[x]
+	sameAuthority := wasReady && prevReady.ID == id
+	keepPending := d.pending[x]
 	delete(d.ready, x)
 	delete(d.pending, x)
-	info := c01StepInfo{kind: "install", node: x, authority: id, pre: pre, linkReach: d.c.net.reachableFrom(x, d.c.ids)}
+	info := c01StepInfo{kind: "install", node: x, authority: id, pre: pre, linkReach: d.c.net.reachableFrom(x, d.c.ids), noop: sameAuthority}
 	d.c.net.beginObs(x)
 	ctx, cancel := context.WithTimeout(context.Background(), 90*time.Second)
 	var inst replication.Installed
@@ -753,6 +870,12 @@ func (d *c01Director) doInstall(x ch.NodeID, id replication.AuthorityID) bool {
 		d.r.Count("install.ok", 1)
 		d.fp = append(d.fp, fmt.Sprintf("I%d:ok", x))
 		d.ready[x] = authority
+		if sameAuthority && keepPending != nil {
+			d.pending[x] = keepPending // the log kept its unresolved command
+		}
+		if sameAuthority {
+			d.r.Count("install.same_authority_noop", 1)
+		}
 		if c01CompareAuthority(id, d.auth) == 0 {
 			d.leader = x
 		}
